@@ -50,6 +50,7 @@ type pipeTask struct {
 	Hold  int
 	K     int
 	Gated bool
+	Nest  bool // the pip:run line is the body of an outer lock-free task
 	BG    bool // the task runs in the background sandbox: Sandbox.Run returns at once, the body goes on as work registered in the task's scope
 }
 
@@ -73,6 +74,11 @@ func (t *pipeTask) line() string {
 		sb.WriteString(" --sandbox=c15bg")
 	}
 	fmt.Fprintf(&sb, " --body=\"probe --id=%d\" --silent=true", t.ID)
+	if t.Nest {
+		// the task is submitted from the body of another task, which asks for no lock itself
+		inner := strings.NewReplacer(`\`, `\\`, `"`, `\"`).Replace(sb.String())
+		return fmt.Sprintf("pip:run --name=o%d --body=\"%s\" --silent=true", t.ID, inner)
+	}
 	return sb.String()
 }
 
@@ -399,6 +405,8 @@ func runPipeCase(c *sup.Child, idx int, script bool, viol *int) {
 	switch {
 	case script:
 		pipeScript(c, idx, rng, viol)
+	case idx%12 == 3:
+		pipeNested(c, idx, rng, viol)
 	case idx%3 == 0:
 		pipePair(c, idx, rng, viol)
 	case idx%3 == 1 && idx%2 == 0:
